@@ -46,6 +46,11 @@ def oracle(case: dict) -> Outcome:
     r = float(rootf)
     cfg = EigenConfig(enhance_stability=case["stab"])
     L = torch.linalg.eigvalsh(A.to(D))
+    if float(L.min()) < -1e-3 * max(float(L.max()), 1e-300):
+        out.classes.append("outside_domain_too_negative")  # the property covers eigenvalues in [-1e-3*scale, scale]
+        return out
+    if case["recipe"].get("struct"):
+        out.classes.append("structured_" + case["recipe"]["struct"])
     Ls = L - min(float(L.min()), 0.0) + eps
     kappa = float(Ls.max() / Ls.min())
     peak = float(Ls.min()) ** (-1.0 / r)
